@@ -16,8 +16,9 @@ import warnings
 
 from .. import tlc
 
-INVS = ["InvNoLogin", "InvDisableDisables", "InvHashKept"]
-PROPS = ["RestoreExact", "EnableNormal"]
+INVS = ["InvNoLogin", "InvNoneFalse", "InvDisableDisables", "InvHashKept"]
+PROPS = ["RestoreExact", "RestoreAlways", "EnableNormal"]
+KINDS = tlc.Raw('{<<"unix1">>, <<"unix2">>, <<"django">>, <<"django", "unix1">>, <<"django", "unix2">>, <<"unix1", "django">>, <<"unix2", "django">>}')
 SCHEMES = ["md5_crypt", "des_crypt", "sha256_crypt", "sha512_crypt", "bcrypt", "pbkdf2_sha256", "ldap_salted_sha1", "ldap_md5", "apr_md5_crypt",
            "phpass", "nthash", "lmhash", "mysql323", "hex_sha256", "django_pbkdf2_sha256", "django_salted_sha1", "sha1_crypt",
            "bsdi_crypt", "scram", "ldap_pbkdf2_sha256", "atlassian_pbkdf2_sha1", "fshp", "cisco_type7", "bigcrypt", "sun_md5_crypt"]
@@ -45,10 +46,14 @@ class World:
             h = h.using(rounds=CHEAP[scheme])
         self.right, self.wrong = "right pw \xe9", "wrong"
         self.H = h.hash(self.right)
-        dis = "django_disabled" if kind == "django" else "unix_disabled"
-        schemes = [dis, h] if first else [h, dis]
-        kw = {"unix_disabled__marker": "*"} if kind == "unix2" else {}
-        self.ctx = CryptContext(schemes=schemes, **kw)
+        dis = ["django_disabled" if k == "django" else "unix_disabled" for k in kind]
+        self.kw = {"unix_disabled__marker": "*"} if "unix2" in kind else {}
+        self.with_real = dis + [h] if first else [h] + dis
+        # the configuration without the account's scheme: another real scheme takes its place
+        other = H.ldap_md5 if scheme != "ldap_md5" else H.hex_sha256
+        self.without_real = dis + [other] if first else [other] + dis
+        self.ctx = CryptContext(schemes=self.with_real, **self.kw)
+        self.other_claims = bool(other.identify(self.H))
         self.dummy_calls = 0
         orig = self.ctx.dummy_verify
 
@@ -79,7 +84,7 @@ class World:
             return "M1H"
         if t == "*" + self.H:
             return "M2H"
-        if self.kind == "django" and t.startswith("!") and len(t) == 41:
+        if self.kind[0] == "django" and t.startswith("!") and len(t) == 41:
             return "D"
         if self.D and t == self.D[1:]:
             return "Dtail"
@@ -104,7 +109,7 @@ def replay_beh(chk, beh, scheme, first, rnd):
     except Exception as e:
         chk.uncovered.append(f"{scheme}: cannot build context: {type(e).__name__}: {e}"[:150])
         return
-    if first and W.ambiguous:
+    if (first and W.ambiguous) or W.other_claims:
         return
     x = beh[0]["x0"]
     hist = []
@@ -118,7 +123,7 @@ def replay_beh(chk, beh, scheme, first, rnd):
             r = call(W.ctx.disable, arg) if (arg is not None or rnd.random() < .5) else call(W.ctx.disable)
             got = [r[0], W.abstract(r[1])] if r[0] == "ok" else [r[0]]
             if r[0] == "ok":
-                if kind == "django":
+                if kind[0] == "django":
                     W.D = r[1]
                 new_real = r[1]
                 # the produced string: recognised as disabled, verifies nothing (not even itself or ""), disabling again keeps it disabled
@@ -135,6 +140,10 @@ def replay_beh(chk, beh, scheme, first, rnd):
         elif op == "enable":
             r = call(W.ctx.enable, arg)
             got = [r[0], W.abstract(r[1])] if r[0] == "ok" else [r[0]]
+        elif op == "reload":
+            cfg = dict(schemes=W.without_real if st["arg"] == "drop" else W.with_real, **W.kw)
+            r = call(W.ctx.load, cfg) if rnd.random() < .7 else call(W.ctx.load, __import__("passlib.context").context.CryptContext(**cfg).to_string())
+            got = [r[0]]
         elif op == "is_enabled":
             r = call(W.ctx.is_enabled, arg)
             got = [str(r[1])] if r[0] == "ok" else [r[0]]
@@ -146,13 +155,13 @@ def replay_beh(chk, beh, scheme, first, rnd):
             if x == "None" and W.dummy_calls - before != 1:
                 problems.append(("none-dummy-verify", f"verify(pw, None) performed {W.dummy_calls - before} dummy verifications"))
         hist.append({"op": op, "stored": x, "real": xr if xr is None else xr[:50], "spec": exp, "got": got})
-        chk.count((kind, op, x, exp[0], exp[1] if len(exp) > 1 else "", first, scheme in ("plaintext", "mysql41")))
+        chk.count(("/".join(kind), op, x, exp[0], exp[1] if len(exp) > 1 else "", first, scheme in ("plaintext", "mysql41")))
         chk.action(f"{op}->{exp[0]}")
         if got != list(exp):
             problems.insert(0, (f"{op}:{x}:{'/'.join(exp)}->{'/'.join(got)}", f"{op}({x}) gave {got}, spec says {exp}"))
         if problems:
             for key, msg in problems[:2]:
-                chk.violation(f"{'django' if kind == 'django' else 'unix'}:{key}", f"{kind} [{scheme}{', disabled first' if first else ''}]: {msg}",
+                chk.violation(f"{'+'.join('django' if k == 'django' else 'unix' for k in kind)}:{key}", f"{kind} [{scheme}{', disabled first' if first else ''}]: {msg}",
                               {"kind": kind, "scheme": scheme, "disabled_listed_first": first, "hash": W.H, "history": hist})
             return
         x = st["x"]
@@ -164,12 +173,12 @@ def run(chk):
     rnd = random.Random(chk.seed)
     chk.rule = ("S->I: every step of every history is executed on a real CryptContext; after each disable() the produced string is additionally "
                 "verified against 4 passwords, is_enabled and a second disable(). non-trivial = distinct (kind, op, stored class, outcome, order, ambiguous scheme) steps")
-    r = tlc.run_instance("MC_Disabled", dict(Kinds={"unix1", "unix2", "django"}, MaxOps=5 if quick else 6, DoEmit=False), name="C18_mc",
+    r = tlc.run_instance("MC_Disabled", dict(Kinds=KINDS, MaxOps=5 if quick else 6, DoEmit=False), name="C18_mc",
                          invariants=INVS, properties=PROPS, action_constraint="Emit")
     chk.add_tlc("MC_Disabled exhaustive", r)
     nb = 3000 if quick else 30000
-    r = tlc.run_instance("MC_Disabled", dict(Kinds={"unix1", "unix2", "django"}, MaxOps=6, DoEmit=True), name="C18_sim", invariants=INVS,
-                         action_constraint="Emit", next="SimNext", simulate=f"num={nb}", depth=6, seed=chk.seed + 5, workers=1, coverage=False)
+    r = tlc.run_instance("MC_Disabled", dict(Kinds=KINDS, MaxOps=7, DoEmit=True), name="C18_sim", invariants=INVS,
+                         action_constraint="Emit", next="SimNext", simulate=f"num={nb}", depth=7, seed=chk.seed + 5, workers=1, coverage=False)
     chk.add_tlc(f"MC_Disabled simulation ({nb} histories)", r)
     behs = split(r.emits)
     schemes = SCHEMES
